@@ -14,10 +14,11 @@
 
    TLC checks (CksumVec.tla) that the mechanism equals the property level on every enumerated vector
    and the lemmas SplitIndependent, VerifyZero, CarryFold, TwoFolds on the definition itself. *)
-EXTENDS Integers, Sequences
+EXTENDS Integers, Sequences, SequencesExt
 
 W16 == 65536
-U32 == 4294967296
+\* TLC integers are 32-bit: the uint32 wrap-around of the accumulator is not representable and not needed,
+\* every enumerated length (<= 1522 bytes) keeps the accumulator below 2^27.
 
 \* ------------------------------------------------------------------ property level (RFC 1071)
 NWords(b) == (Len(b) + 1) \div 2
@@ -28,11 +29,9 @@ Words(b) == [i \in 1..NWords(b) |-> b[2*i-1] * 256 + (IF 2*i <= Len(b) THEN b[2*
 \* one's-complement addition of two 16-bit values: the carry out of bit 15 is added back in
 Add1c(x, y) == LET s == x + y IN (s % W16) + (s \div W16)
 
-RECURSIVE FoldFrom(_, _, _)
-FoldFrom(w, i, acc) == IF i > Len(w) THEN acc ELSE FoldFrom(w, i + 1, Add1c(acc, w[i]))
-
-\* one's-complement sum of a sequence of words
-OnesSum(w) == FoldFrom(w, 1, 0)
+\* one's-complement sum of a sequence of words: a left fold of Add1c starting from 0
+\* (FoldLeft of the CommunityModules: FoldLeft(op, base, <<a, b, c>>) = op(op(op(base, a), b), c))
+OnesSum(w) == FoldLeft(Add1c, 0, w)
 
 Sum(b)    == OnesSum(Words(b))
 Cksum(b)  == 65535 - Sum(b)
@@ -52,15 +51,14 @@ Reduce(s) == IF s = 0 THEN 0 ELSE ((s - 1) % 65535) + 1
 
 \* ------------------------------------------------------------------ mechanism level (layer_ip4.go)
 \* for i := 0; i < len(b)-1; i += 2 { s += uint32(b[i+1])<<8 | uint32(b[i]) }      (i is 0-based)
-RECURSIVE MechLoop(_, _, _)
-MechLoop(b, i, s) ==
-  IF i < Len(b) - 1 THEN MechLoop(b, i + 2, (s + b[i+2] * 256 + b[i+1]) % U32) ELSE s
+\* = one step per complete byte pair j = 1..len(b) div 2, low byte first
+MechLoop(b) == FoldLeft(LAMBDA s, j : s + b[2*j] * 256 + b[2*j-1], 0, [j \in 1..(Len(b) \div 2) |-> j])
 
 \* if csumcv&1 == 0 { s += uint32(b[csumcv]) }     csumcv = len(b)-1 is even iff len(b) is odd
-MechAcc(b) == LET s == MechLoop(b, 0, 0) IN IF Len(b) % 2 = 1 THEN (s + b[Len(b)]) % U32 ELSE s
+MechAcc(b) == IF Len(b) % 2 = 1 THEN MechLoop(b) + b[Len(b)] ELSE MechLoop(b)
 
-Fold1(s) == ((s \div W16) + (s % W16)) % U32          \* s = s>>16 + s&0xffff
-Fold2(s) == (s + (s \div W16)) % U32                  \* s = s + s>>16
+Fold1(s) == (s \div W16) + (s % W16)                  \* s = s>>16 + s&0xffff
+Fold2(s) == s + (s \div W16)                          \* s = s + s>>16
 MechValue(b) == 65535 - (Fold2(Fold1(MechAcc(b))) % W16)   \* ^uint16(s)
 MechStored(b) == <<MechValue(b) % 256, MechValue(b) \div 256>>   \* p[10] = byte(v); p[11] = byte(v>>8)
 
@@ -88,10 +86,11 @@ CarryFold(maxn) ==
      IN  /\ OnesSum(f) = IF n = 0 THEN 0 ELSE 65535
          /\ \A w \in {1, 255, 256, 32768, 65534} : n > 0 => OnesSum(Append(f, w)) = w
 
-\* two folding steps reduce every 32-bit accumulator value completely (checked on the boundary values of
-\* every high half)
+\* two folding steps reduce every 32-bit accumulator value s = hi*2^16 + lo completely.  s itself does not fit a
+\* TLC integer; Fold1(s) = hi + lo does, and s = hi + lo (mod 0xffff), s = 0 iff hi + lo = 0.  Checked on the
+\* boundary values of the low half for every high half.
 TwoFolds ==
   \A hi \in 0..65535 :
-    \A lo \in {0, 1, 65534, 65535} \cup ({65535 - hi, 65536 - hi, 65537 - hi} \cap 0..65535) :
-       LET s == hi * W16 + lo IN Fold2(Fold1(s)) % W16 = Reduce(s)
+    \A lo \in {0, 1, 65534, 65535} \cup ({65534 - hi, 65535 - hi, 65536 - hi, 65537 - hi} \cap 0..65535) :
+       LET t == hi + lo IN Fold2(t) < 2 * W16 /\ Fold2(t) % W16 = Reduce(t)
 =============================================================================
